@@ -338,7 +338,7 @@ class Tracker:
         self._decide_all(blocks)
         # materialised verdicts: `let hit = matches!(x, Some(k) if k == key); … if hit { … }` — a bool variable whose every definition
         # is a constant, `true` only behind accepting edges and `false` never after one (or the mirror image), carries the verdict
-        for _round in range(3):
+        for _round in range(5):
             if not (self.accept or self.reject) or not self._materialised(blocks):
                 break
             self._propagate(blocks)
@@ -418,6 +418,57 @@ class Tracker:
         free_rej = g.reach((0,) + tuple(d for _, d in self.accept), cut=self.reject) if self.reject else None
         after_acc = g.reach(tuple(d for _, d in self.accept), cut=both) if self.accept else set()
         after_rej = g.reach(tuple(d for _, d in self.reject), cut=both) if self.reject else set()
+        # the Option / Result analogue: `let local = match guarded() { Some(r) => Some(f(r)?), None => None };` — a variable whose every
+        # definition is a `None` / `Some(..)` (`Err` / `Ok`) literal, one variant only behind accepting edges and the other never after one,
+        # carries the verdict to the later `match local` / `local.is_some_and(..)`
+        odefs, obad = {}, set()
+        for b in blocks:
+            for s in b["stmts"]:
+                if len(s["d"]) != 1:
+                    if s["d"]:
+                        obad.add(s["d"][0])
+                    continue
+                rv = s["rv"]
+                if rv["k"] == "agg" and rv.get("ak") == "adt" and rv.get("adt") in ("core::option::Option", "core::result::Result") and rv.get("variant") in ("None", "Some", "Ok", "Err"):
+                    odefs.setdefault(s["d"][0], []).append((b["id"], rv["variant"]))
+                else:
+                    obad.add(s["d"][0])
+            t = b["term"]
+            if t["k"] == "call" and t.get("d"):
+                obad.add(t["d"][0])
+        for l, ds in odefs.items():
+            if l in obad or l in self.states or len(ds) < 2 or l == 0:
+                continue
+            vs = sorted({v for _, v in ds})
+            if len(vs) != 2:
+                continue
+            for va, vb in ((vs[0], vs[1]), (vs[1], vs[0])):
+                A = {b for b, v in ds if v == va}
+                B = {b for b, v in ds if v == vb}
+                st = None
+                if free_acc is not None and not (A & free_acc) and not (B & after_acc):
+                    st = ("val", (va,), False)      # variant va <=> accepted
+                elif free_rej is not None and not (A & free_rej) and not (B & after_rej):
+                    st = ("val", (va,), True)       # variant va <=> rejected
+                if st is None:
+                    continue
+                # freshness, as for bools: a cycle through a branch on the variable re-passes one of its definitions
+                dtemps = {l}
+                for b in blocks:
+                    for s in b["stmts"]:
+                        if len(s["d"]) == 1 and s["rv"]["k"] == "discr" and s["rv"]["p"][0] == l:
+                            dtemps.add(s["d"][0])
+                stale = False
+                for b in blocks:
+                    t = b["term"]
+                    if t["k"] == "switch" and op_local(t["on"]) in dtemps:
+                        succ = tuple(d for d, _ in g.succ[b["id"]])
+                        if b["id"] in g.reach(succ, avoid=A | B):
+                            stale = True
+                if not stale:
+                    self.states.setdefault(l, set()).add(st)
+                    added = True
+                break
         for l, ds in defs.items():
             if l in bad or l in self.states or len(ds) < 2:
                 continue
@@ -603,6 +654,8 @@ class Tracker:
                 m = {"Some": "Ok", "None": "Err"}
                 if steps[0] in m:
                     return ("val", (m[steps[0]],) + tuple(steps[1:]), neg)
+            if c.endswith("Option::transpose") and steps[0] == "None" and len(steps) == 1 and not neg:
+                return ("val", ("Ok", "None"), neg)      # None.transpose() == Ok(None); Some(..) may become Ok(Some) or Err: not carried
             if c.endswith("Result::ok"):
                 m = {"Ok": "Some", "Err": "None"}
                 if steps[0] in m:
